@@ -445,7 +445,7 @@ fn scalar_sensitivity(run: &Run) {
             1 => b.header.fee_multiplier += 1,
             _ => b.header.dosc_speed += 1,
         }
-        let s = melstf::SealedState::from_block(&b, &base.raw_stakes(), &w.db);
+        let s = melstf::SealedState::from_block(&b, &crate::world::persisted(&base).1, &w.db);
         variants.push((name, s.header()));
         run.transition();
     }
